@@ -90,9 +90,12 @@ def render(c):
                 sh = c.get("shape") if g != "xmlent" else o["shape"]
                 aux = (" %d" % c["aux"]) if g == "hex" else ""
                 if e["c"] == rcap: aux += " R"
-                # (for the entity codecs capacity 0 is just one more capacity below the output size)
-                shape = rel(max(e["c"], 1), max(o["req"], 2)) if g == "xmlent" and e["c"] < o["req"] else \
-                    (rel(e["c"], o["req"]) if g == "xmlent" else "%s/%s" % (sh, rel(e["c"], o["req"])))
+                if g == "xmlent":     # (for the entity codecs capacity 0 is just one more capacity below the output size)
+                    shape = "cap<required" if e["c"] < o["req"] else rel(e["c"], o["req"])
+                elif sh in ("enc", "bin", "clean"):   # no input feature worth a label: the capacity relation is the shape
+                    shape = rel(e["c"], o["req"])
+                else:
+                    shape = "%s/%s" % (sh, rel(e["c"], o["req"]))
                 out.append(Case(o["op"], "%s %d%s" % (hexs(src), e["c"], aux), ("sized", e["cls"], e["n"], e["c"], o["req"]),
                                 shape, len(src) > 0, (o["op"], src, e["c"], aux)))
     elif g == "num":
